@@ -1,6 +1,7 @@
 (* generated unicode.c: _cbor_unicode_decode / _cbor_unicode_codepoint_count = the model's DFA step and
    code point count of PUtf8.v (this run's AST, this run's utf8d table) *)
 From Coq Require Import ZArith NArith List Bool Lia ZifyBool ZifyN ZifyNat.
+From Coq Require String.
 Import ListNotations.
 From CB Require Import Word Word_proofs PStream PEnc PMem PUtf8 GenLeafTypes BridgeTac Bridge_utf8d.
 From CBGen Require Import Gen_utf8d Gen_leaf.
@@ -58,66 +59,70 @@ Proof.
 Qed.
 
 (* ---- _cbor_unicode_codepoint_count: the loop, through the generic combinator ----
-   state of the loop = (codepoint, count, pos, res, state, exit); exit = 2 is `goto error` from the body,
-   -1 undefined behaviour.  The loop is characterised by three facts about its condition and body
-   (discharged below by unfolding + the decode bridge + normalise / split / lia), then one induction on
-   the unread suffix relates it to the model's cp_loop. *)
-Definition lstate := (Z * Z * Z * Z * Z * Z)%type.
+   The loop state is whatever tuple of loop-carried locals the function has; the lemma is stated for ANY
+   state type with four projections (count, pos, state, exit) that the condition and the body respect, so
+   additional / missing / renamed locals (codepoint, res, temporaries) do not matter.  exit = E (some code
+   other than 0) is "left the loop on the reject path" (goto error / return from the body), -1 undefined
+   behaviour.  The loop is characterised by three facts about its condition and body (discharged below by
+   unfolding + the decode bridge + normalise / split / lia), then one induction on the unread suffix relates
+   it to the model's cp_loop. *)
 Section Count.
 Variable bs : list N.
 Hypothesis Hbs : Forall (fun b => (b < 256)%N) bs.
-Variables (C : lstate -> bool) (B : lstate -> lstate).
-Hypothesis HC0 : forall cp cnt pos res st, (pos <= len bs)%N -> C (cp, cnt, Z.of_N pos, res, st, 0) = (pos <? len bs)%N.
-Hypothesis HCx : forall cp cnt pos res st, C (cp, cnt, pos, res, st, 2) = false.
-Hypothesis HB : forall cp cnt pos res st, (pos < len bs)%N -> (st < 9)%N -> (cnt <= pos)%N -> (len bs < 2^64)%N ->
+Variable S : Type.
+Variables (pcount ppos pstate pexit : S -> Z).
+Variables (C : S -> bool) (B : S -> S) (E : Z).
+Hypothesis HC0 : forall s pos, pexit s = 0 -> ppos s = Z.of_N pos -> (pos <= len bs)%N -> C s = (pos <? len bs)%N.
+Hypothesis HCx : forall s, pexit s = E -> C s = false.
+Hypothesis HB : forall s cnt pos st, pexit s = 0 -> pcount s = Z.of_N cnt -> ppos s = Z.of_N pos -> pstate s = Z.of_N st ->
+  (pos < len bs)%N -> (st < 9)%N -> (cnt <= pos)%N -> (len bs < 2^64)%N ->
   match unicode_decode gen_utf8d st (nth (N.to_nat pos) bs 0%N) with
   | Some st' =>
-      let '(cp', c', p', r', s', x') := B (cp, Z.of_N cnt, Z.of_N pos, res, Z.of_N st, 0) in
-      if (st' =? 0)%N then c' = Z.of_N (cnt + 1) /\ p' = Z.of_N (pos + 1) /\ s' = 0 /\ x' = 0
-      else if (st' =? 1)%N then x' = 2
-      else c' = Z.of_N cnt /\ p' = Z.of_N (pos + 1) /\ s' = Z.of_N st' /\ x' = 0
+      if (st' =? 0)%N then pcount (B s) = Z.of_N (cnt + 1) /\ ppos (B s) = Z.of_N (pos + 1) /\ pstate (B s) = 0 /\ pexit (B s) = 0
+      else if (st' =? 1)%N then pexit (B s) = E
+      else pcount (B s) = Z.of_N cnt /\ ppos (B s) = Z.of_N (pos + 1) /\ pstate (B s) = Z.of_N st' /\ pexit (B s) = 0
   | None => True
   end.
 
 Lemma nth_app_here (pre : list N) b r : nth (N.to_nat (len pre)) (pre ++ b :: r) 0%N = b.
 Proof. unfold len. rewrite Nnat.Nat2N.id, app_nth2, Nat.sub_diag by lia. reflexivity. Qed.
 
-Lemma count_loop : (len bs < 2^64)%N -> forall rest pre cp cnt res st f, bs = pre ++ rest -> (st < 9)%N -> (cnt <= len pre)%N -> (length rest < f)%nat ->
+Lemma count_loop : (len bs < 2^64)%N -> forall rest pre s cnt st f, bs = pre ++ rest ->
+  pexit s = 0 -> pcount s = Z.of_N cnt -> ppos s = Z.of_N (len pre) -> pstate s = Z.of_N st ->
+  (st < 9)%N -> (cnt <= len pre)%N -> (length rest < f)%nat ->
+  let T := wloop f C B s in
   match cp_loop gen_utf8d rest st cnt with
-  | Some (c, true) => exists cp' res', wloop f C B (cp, Z.of_N cnt, Z.of_N (len pre), res, Z.of_N st, 0) = (cp', Z.of_N c, Z.of_N (len bs), res', 0, 0)
-  | Some (c, false) => c = 0%N /\
-      ((exists cp' cnt' pos' res' st', wloop f C B (cp, Z.of_N cnt, Z.of_N (len pre), res, Z.of_N st, 0) = (cp', cnt', pos', res', st', 2)) \/
-       (exists cp' cnt' res' st', st' <> 0 /\ wloop f C B (cp, Z.of_N cnt, Z.of_N (len pre), res, Z.of_N st, 0) = (cp', cnt', Z.of_N (len bs), res', st', 0)))
+  | Some (c, true) => pcount T = Z.of_N c /\ ppos T = Z.of_N (len bs) /\ pstate T = 0 /\ pexit T = 0
+  | Some (c, false) => c = 0%N /\ (pexit T = E \/ (pstate T <> 0 /\ ppos T = Z.of_N (len bs) /\ pexit T = 0))
   | None => False
   end.
 Proof.
-  intros Hlen. induction rest as [|b r IH]; intros pre cp cnt res st f Hsplit Hst Hcnt Hf.
+  intros Hlen. induction rest as [|b r IH]; intros pre s cnt st f Hsplit Ex Ec Ep Es Hst Hcnt Hf; cbv zeta.
   - rewrite app_nil_r in Hsplit. subst pre. destruct f as [|f']; [lia|].
-    cbn [wloop cp_loop]. rewrite HC0 by lia. rewrite N.ltb_irrefl. unfold UTF8_ACCEPT.
+    cbn [wloop cp_loop]. rewrite (HC0 s (len bs) Ex Ep) by lia. rewrite N.ltb_irrefl. unfold UTF8_ACCEPT.
     destruct (N.eqb_spec st 0) as [->|Hne].
-    + exists cp, res. reflexivity.
-    + split; [reflexivity|]. right. exists cp, (Z.of_N cnt), res, (Z.of_N st). split; [lia|reflexivity].
+    + repeat split; assumption.
+    + split; [reflexivity|]. right. repeat split; try assumption. rewrite Es. lia.
   - destruct f as [|f']; [cbn in Hf; lia|]. cbn [wloop cp_loop].
     assert (Hpos : (len pre < len bs)%N) by (subst bs; unfold len; rewrite app_length; cbn [length]; lia).
-    rewrite HC0 by lia. replace (len pre <? len bs)%N with true by (symmetry; apply N.ltb_lt; exact Hpos).
-    pose proof (HB cp cnt (len pre) res st Hpos Hst Hcnt Hlen) as Hb.
+    rewrite (HC0 s (len pre) Ex Ep) by lia. replace (len pre <? len bs)%N with true by (symmetry; apply N.ltb_lt; exact Hpos).
+    pose proof (HB s cnt (len pre) st Ex Ec Ep Es Hpos Hst Hcnt Hlen) as Hb.
     rewrite Hsplit, nth_app_here in Hb.
     assert (Hbyte : (b < 256)%N).
     { rewrite Hsplit in Hbs. apply Forall_app in Hbs. destruct Hbs as [_ H2]. inversion H2; assumption. }
     destruct (decode_closed st b Hst Hbyte) as (st' & Hdec & Hst'). rewrite Hdec in Hb |- *.
-    destruct (B (cp, Z.of_N cnt, Z.of_N (len pre), res, Z.of_N st, 0)) as [[[[[cp' c'] p'] r'] s'] x'].
     assert (Hlen' : len (pre ++ [b]) = (len pre + 1)%N) by (unfold len; rewrite app_length; cbn [length]; lia).
     unfold UTF8_ACCEPT, UTF8_REJECT.
-    destruct (N.eqb_spec st' 0) as [->|Hn0].
-    + destruct Hb as (-> & -> & -> & ->).
-      specialize (IH (pre ++ [b]) cp' (cnt + 1)%N r' 0%N f' ltac:(rewrite <- app_assoc; exact Hsplit) ltac:(lia) ltac:(lia) ltac:(cbn in Hf; lia)).
-      rewrite Hlen' in IH. exact IH.
-    + destruct (N.eqb_spec st' 1) as [->|Hn1].
-      * subst x'. split; [reflexivity|]. left. exists cp', c', p', r', s'.
-        destruct f' as [|f'']; [reflexivity|]. cbn [wloop]. rewrite HCx. reflexivity.
-      * destruct Hb as (-> & -> & -> & ->).
-        specialize (IH (pre ++ [b]) cp' cnt r' st' f' ltac:(rewrite <- app_assoc; exact Hsplit) Hst' ltac:(lia) ltac:(cbn in Hf; lia)).
-        rewrite Hlen' in IH. exact IH.
+    destruct (N.eqb_spec st' 0) as [E0|Hn0].
+    + subst st'. destruct Hb as (Ec' & Ep' & Es' & Ex').
+      rewrite <- Hlen' in Ep'.
+      exact (IH (pre ++ [b]) (B s) (cnt + 1)%N 0%N f' ltac:(rewrite <- app_assoc; exact Hsplit) Ex' Ec' Ep' Es' ltac:(lia) ltac:(lia) ltac:(cbn in Hf; lia)).
+    + destruct (N.eqb_spec st' 1) as [E1|Hn1].
+      * subst st'. split; [reflexivity|]. left.
+        destruct f' as [|f'']; [exact Hb|]. cbn [wloop]. rewrite (HCx (B s) Hb). exact Hb.
+      * destruct Hb as (Ec' & Ep' & Es' & Ex').
+        rewrite <- Hlen' in Ep'.
+        exact (IH (pre ++ [b]) (B s) cnt st' f' ltac:(rewrite <- app_assoc; exact Hsplit) Ex' Ec' Ep' Es' Hst' ltac:(lia) ltac:(cbn in Hf; lia)).
 Qed.
 End Count.
 
@@ -136,45 +141,83 @@ Proof. unfold srcf. replace (Z.to_nat (Z.of_N pos)) with (N.to_nat pos) by lia. 
 Lemma nth_lt256 bs i : Forall (fun b => (b < 256)%N) bs -> (nth i bs 0 < 256)%N.
 Proof. intros H. revert i. induction H; intros [|i]; cbn; try lia. apply IHForall. Qed.
 
+Module LoopNames.
+  Import String.
+  Definition n_count := "count"%string.
+  Definition n_pos := "pos"%string.
+  Definition n_state := "state"%string.
+End LoopNames.
+(* position of a name in the generated list of loop-state names (a hint: every choice is verified) *)
+Fixpoint index_of (x : String.string) (l : list String.string) : option nat :=
+  match l with
+  | [] => None
+  | y :: r => if String.eqb x y then Some O else option_map Datatypes.S (index_of x r)
+  end.
+
 Ltac count_side_B bs Hbs :=
-  let cp := fresh "cp" in let cnt := fresh "cnt" in let pos := fresh "pos" in let res := fresh "res" in let st := fresh "st" in
+  let s := fresh "s" in let cnt := fresh "cnt" in let pos := fresh "pos" in let st := fresh "st" in
+  let Ex := fresh "Ex" in let Ec := fresh "Ec" in let Ep := fresh "Ep" in let Es := fresh "Es" in
   let b := fresh "b" in let Hb := fresh "Hb" in let HD := fresh "HD" in
-  intros cp cnt pos res st ? ? ? ?; cbv beta iota zeta;
+  intros s cnt pos st Ex Ec Ep Es ? ? ? ?; destruct_pairs; cbn [fst snd] in Ex, Ec, Ep, Es; subst;
+  cbv beta iota zeta; cbn [fst snd];
   rewrite ?srcf_nth; set (b := nth (N.to_nat pos) bs 0%N); assert (Hb : (b < 256)%N) by apply nth_lt256, Hbs;
-  lazymatch goal with |- context [g_cbor_unicode_decode ?s ?c ?a] =>
+  lazymatch goal with |- context [g_cbor_unicode_decode ?s0 ?c ?a] =>
     replace a with (Z.of_N b) by (norm; lia);
     pose proof (bridge_unicode_decode st b c ltac:(lia) Hb) as HD;
-    destruct (g_cbor_unicode_decode s c (Z.of_N b)) as [[[? ?] ?]|]
+    destruct (g_cbor_unicode_decode s0 c (Z.of_N b)) as [[[? ?] ?]|]
   end;
   destruct (unicode_decode gen_utf8d st b) as [?|]; cbn [proj_rs option_map fst snd] in HD; try discriminate; try exact I;
   try (injection HD as -> ->);
-  norm; splits; cbv beta iota; repeat split; lia.
+  norm; splits; cbv beta iota; cbn [fst snd]; repeat split; lia.
+
+(* one attempt with the components (ic, ip, is) as count, pos, state; exit is the last component; E the reject code *)
+Ltac count_try bs u Hbs Hlen T k f C B init ic ip is E :=
+  let ix := eval compute in (k - 1)%nat in
+  neq_nat ic ip; neq_nat ic is; neq_nat ip is; neq_nat ic ix; neq_nat ip ix; neq_nat is ix;
+  let pc := tuple_proj T k ic in let pp := tuple_proj T k ip in let ps := tuple_proj T k is in let px := tuple_proj T k ix in
+  let HC0 := fresh "HC0" in let HCx := fresh "HCx" in let HB := fresh "HB" in let HL := fresh "HL" in
+  assert (HC0 : forall s pos, px s = 0 -> pp s = Z.of_N pos -> (pos <= len bs)%N -> C s = (pos <? len bs)%N)
+    by (let s := fresh "s" in let Ex := fresh "Ex" in let Ep := fresh "Ep" in
+        intros s ? Ex Ep ?; destruct_pairs; cbn [fst snd] in Ex, Ep; subst; cbv beta iota; solve [bridge]);
+  assert (HCx : forall s, px s = E -> C s = false)
+    by (let s := fresh "s" in let Ex := fresh "Ex" in
+        intros s Ex; destruct_pairs; cbn [fst snd] in Ex; subst; cbv beta iota; solve [bridge]);
+  assert (HB : forall s cnt pos st, px s = 0 -> pc s = Z.of_N cnt -> pp s = Z.of_N pos -> ps s = Z.of_N st ->
+      (pos < len bs)%N -> (st < 9)%N -> (cnt <= pos)%N -> (len bs < 2^64)%N ->
+      match unicode_decode gen_utf8d st (nth (N.to_nat pos) bs 0%N) with
+      | Some st' =>
+          if (st' =? 0)%N then pc (B s) = Z.of_N (cnt + 1) /\ pp (B s) = Z.of_N (pos + 1) /\ ps (B s) = 0 /\ px (B s) = 0
+          else if (st' =? 1)%N then px (B s) = E
+          else pc (B s) = Z.of_N cnt /\ pp (B s) = Z.of_N (pos + 1) /\ ps (B s) = Z.of_N st' /\ px (B s) = 0
+      | None => True
+      end) by (count_side_B bs Hbs);
+  unfold UTF8_ACCEPT;
+  pose proof (count_loop bs Hbs T pc pp ps px C B E HC0 HCx HB Hlen bs [] init 0%N 0%N f eq_refl
+                ltac:(cbv beta; cbn [fst snd]; first [reflexivity | cbn [len length N.of_nat Z.of_N]; norm; lia]) ltac:(cbv beta; cbn [fst snd]; first [reflexivity | cbn [len length N.of_nat Z.of_N]; norm; lia]) ltac:(cbv beta; cbn [fst snd]; first [reflexivity | cbn [len length N.of_nat Z.of_N]; norm; lia]) ltac:(cbv beta; cbn [fst snd]; first [reflexivity | cbn [len length N.of_nat Z.of_N]; norm; lia])
+                ltac:(lia) ltac:(cbn; lia) ltac:(unfold len; lia)) as HL;
+  cbv zeta in HL;
+  let W := fresh "W" in
+  remember (wloop f C B init) as W eqn:EW; clear EW;
+  destruct (cp_loop gen_utf8d bs 0 0) as [[c [|]]|];
+  [ destruct HL as (? & ? & ? & ?) | destruct HL as [-> [?|(? & ? & ?)]] | destruct HL ];
+  destruct_pairs; cbv beta in *; cbn [fst snd] in *; subst;
+  cbv beta iota; unfold proj_rs, zcount; norm; splits; cbn [option_map fst snd]; try reflexivity; try (f_equal; f_equal; lia); try lia.
 
 Ltac count_main bs u Hbs Hlen :=
   unfold g_cbor_unicode_codepoint_count, codepoint_count; cbv zeta;
-  lazymatch goal with |- context [wloop ?f ?C ?B (?cp0, ?c0, ?p0, ?r0, ?s0, ?x0)] =>
-    assert (HC0 : forall cp cnt pos res st, (pos <= len bs)%N -> C (cp, cnt, Z.of_N pos, res, st, 0) = (pos <? len bs)%N)
-      by (intros; cbv beta iota; bridge);
-    assert (HCx : forall cp cnt pos res st, C (cp, cnt, pos, res, st, 2) = false)
-      by (intros; cbv beta iota; bridge);
-    assert (HB : forall cp cnt pos res st, (pos < len bs)%N -> (st < 9)%N -> (cnt <= pos)%N -> (len bs < 2^64)%N ->
-      match unicode_decode gen_utf8d st (nth (N.to_nat pos) bs 0%N) with
-      | Some st' =>
-          let '(cp', c', p', r', s', x') := B (cp, Z.of_N cnt, Z.of_N pos, res, Z.of_N st, 0) in
-          if (st' =? 0)%N then c' = Z.of_N (cnt + 1) /\ p' = Z.of_N (pos + 1) /\ s' = 0 /\ x' = 0
-          else if (st' =? 1)%N then x' = 2
-          else c' = Z.of_N cnt /\ p' = Z.of_N (pos + 1) /\ s' = Z.of_N st' /\ x' = 0
-      | None => True
-      end) by (count_side_B bs Hbs);
-    unfold UTF8_ACCEPT;
-    pose proof (count_loop bs Hbs C B HC0 HCx HB Hlen bs [] cp0 0%N r0 0%N f eq_refl ltac:(lia) ltac:(cbn; lia) ltac:(unfold len; lia)) as HL;
-    change (wloop f C B (cp0, Z.of_N 0, Z.of_N (len []), r0, Z.of_N 0, 0)) with (wloop f C B (cp0, c0, p0, r0, s0, x0)) in HL;
-    destruct (cp_loop gen_utf8d bs 0 0) as [[c [|]]|];
-    [ destruct HL as (cp' & res' & ->)
-    | destruct HL as [-> [(cp' & cnt' & pos' & res' & st' & ->)|(cp' & cnt' & res' & st' & Hne & ->)]]
-    | destruct HL ]
-  end;
-  cbv beta iota; unfold proj_rs, zcount; norm; splits; cbn [option_map fst snd]; try reflexivity; try (f_equal; f_equal; lia); try lia.
+  lazymatch goal with |- context [@wloop ?T ?f ?C ?B ?init] =>
+    let k := tuple_arity T in
+    let names := eval compute in (nth 0 g_cbor_unicode_codepoint_count_loopvars []) in
+    first
+    [ (* the components named count / pos / state, reject code 2 (the first exit of the body) *)
+      lazymatch eval compute in (index_of LoopNames.n_count names, index_of LoopNames.n_pos names, index_of LoopNames.n_state names) with
+      | (Some ?ic, Some ?ip, Some ?is) => solve [count_try bs u Hbs Hlen T k f C B init ic ip is 2]
+      end
+    | (* otherwise: search the assignment of roles to components, and the reject code among the first exits *)
+      upto k ltac:(fun ip => upto k ltac:(fun is => upto k ltac:(fun ic =>
+        first [ solve [count_try bs u Hbs Hlen T k f C B init ic ip is 2]
+              | solve [count_try bs u Hbs Hlen T k f C B init ic ip is 3] ]))) ]
+  end.
 
 Lemma count_gen bs u : Forall (fun b => (b < 256)%N) bs -> (len bs < 2^64)%N ->
   proj_rs (g_cbor_unicode_codepoint_count (srcf bs) (Z.of_N (len bs)) u) = zcount (codepoint_count gen_utf8d bs).
